@@ -5,6 +5,7 @@ func genAll() {
 	genHashes()
 	genLocks()
 	genDKGTable()
+	genTimeCalls()
 	genSecrets()
 	genMirrors()
 	genRouting()
